@@ -13,7 +13,7 @@ META = {
     "level": "translation_validation",
     "engine": "E1 artifact-level SMT: `sat`, dif_out_s and sen_out bits of the two transform circuits proved equal to their definitions for all valuations; sensitivity = max certified by SAT at r / UNSAT at r+1 on the reference; influence counts certified by solver enumeration with a final UNSAT",
     "hashseeds": {"quick": [0, 1], "thorough": [0, 1, 2, 3, 4, 5, 6, 7]},
-    "shards": {"quick": 8, "thorough": 2},
+    "shards": {"quick": 8, "thorough": 4},
     "bounds": {
         "quick": "F-unit K in {1,2,3,4,5,8} (cones with exactly 1,2,4,8 startpoints), F-shape, functionally constant nodes, 15 random DAGs (<=4 inputs, <=10 gates); node n: every node (<=8 per circuit sampled when larger); endpoint choices: None, each single endpoint in the fan-out of n, n itself, one random subset",
         "thorough": "same + 100 random DAGs (<=6 inputs), all nodes",
